@@ -4,6 +4,12 @@ import json
 ALL = [f'C{i:02d}' for i in range(1, 21)]
 
 CHECKS = {
+ 'C13': dict(
+  category='model_checking',
+  text='spec/KfacDist.tla derives, from a configuration, the assignment facts and a history (per-call facts from a KfacRef.tla behaviour), the exact sequence of K-FAC-owned collectives each rank issues (factor allreduces with bucket fusion and symmetric packing, second-order broadcasts per method inside the gradient-worker column, gradient broadcasts inside receiver rows, load-time broadcasts) and states the clauses of C13 as predicates over per-rank issue sequences; for cases stratified over the KfacConfig.tla lattice (W in {2,4}, all k, methods, prediv, symmetry, capacity classes; histories with save/load/memory queries, F != I, accumulation, hook/step updating) the real code runs on simdist and TLC evaluates the clauses on the derived programs (design), on the RECORDED sequences (decision), HoldersOK (second-order data exactly on gradient workers after every step) and Conforms (recorded == derived; drift note only); memory_usage totals vs bytes of tensors reachable from the layers.',
+  ref='DESIGN.md 4.5, 5 (C13)',
+  note='float64 parameters / float32 second-order data so broadcasts are classified by dtype; receiver rows from the grid formula established by C06.',
+  technique='TLA+ spec (KfacDist.tla) evaluated by TLC on recorded executions (trace checking) and on the derived protocol; conformance recorded == derived'),
  'C11': dict(
   category='model_checking',
   text='Reference machine spec/KfacRef.tla; TLC-generated behaviours (strict discipline, multi-step, F != I, accumulation, eval) are executed by the real GPTNeoXKFACPreconditioner on simdist with Megatron-style column-/row-parallel layers over (D, M) in {(1,2),(2,1),(2,2),(1,3)} (thorough: up to (4,2)), bias on/off per layer kind, clipping active/inactive, 3 bucket capacity classes, symmetry; terms are interpreted on the UNSHARDED layers over the union batch: assembled shards of every rank vs the unsharded gradient (clip included), factors on the inverse worker vs unsharded factors, bit-identical data-parallel replicas / replicated parameters / schedules; Comm.tla invariants monitored at run time and model-checked by TLC over extracted programs.',
